@@ -314,8 +314,7 @@ class NDNApp:
         self._prefix_register_semaphore = aio.Semaphore(1)
 
         async def starting_task():
-            # (a copy: a route declared while these registrations are on their way registers itself)
-            for name, route, validator, need_raw_packet, need_sig_ptrs in list(self._autoreg_routes):
+            for name, route, validator, need_raw_packet, need_sig_ptrs in declared_routes:
                 if not self.face.running:
                     # The connection is gone (and the tables are cleared): attaching the remaining routes now
                     # would leave their callbacks behind and make the next start-up fail as duplicates
@@ -337,6 +336,9 @@ class NDNApp:
                 elif isinstance(after_start, (aio.Task, aio.Future)):
                     after_start.cancel()
             raise
+        # The routes declared up to now - a copy taken the moment the face is up: from here on route() registers a
+        # new route itself, also while the start-up registrations are on their way or have not begun yet
+        declared_routes = list(self._autoreg_routes)
         task = aio.create_task(starting_task())
         self.logger.debug('Connected to NFD node, start running...')
         try:
